@@ -254,11 +254,31 @@ func TestScenarios(t *testing.T) {
 	defer bw.Flush()
 	enc := json.NewEncoder(bw)
 	for _, s := range scns {
-		o := runScenario(t, s)
+		o := safeScenario(t, s)
 		if err := enc.Encode(o); err != nil {
 			t.Fatal(err)
 		}
 	}
+}
+
+// safeScenario converts a panic on the scenario's own goroutine into an observation with Err set
+func safeScenario(t *testing.T, s Scenario) (o Obs) {
+	defer func() {
+		if r := recover(); r != nil {
+			o = Obs{Case: s.Case, Scn: s, I: []EvLite{}, R: []EvLite{}, FinalI: kit.EmptyView(), FinalR: kit.EmptyView(), ValCalls: []string{}, Err: fmt.Sprintf("panic: %v", r)}
+			if o.Scn.Limits == nil {
+				o.Scn.Limits = []uint64{}
+			}
+		}
+	}()
+	return runScenario(t, s)
+}
+
+func stopQuietly(m datatransfer.Manager) {
+	defer func() { _ = recover() }() // Manager.Stop on an already stopped manager panics (close of closed channel)
+	ctx, cancel := context.WithTimeout(context.Background(), 3*time.Second)
+	defer cancel()
+	_ = m.Stop(ctx)
 }
 
 func runScenario(t *testing.T, s Scenario) Obs {
@@ -451,7 +471,7 @@ func runScenario(t *testing.T, s Scenario) Obs {
 					old = dt2
 				}
 				dtMu.Unlock()
-				_ = old.Stop(ctx)
+				stopQuietly(old)
 				m, err := mkDT(which)
 				if err != nil {
 					return
@@ -582,8 +602,8 @@ func runScenario(t *testing.T, s Scenario) Obs {
 	o.ValCalls = append(o.ValCalls, val.calls...)
 	val.mu.Unlock()
 	dtMu.Lock()
-	_ = dt1.Stop(context.Background())
-	_ = dt2.Stop(context.Background())
+	stopQuietly(dt1)
+	stopQuietly(dt2)
 	dtMu.Unlock()
 	_ = gs.Mn.Close()
 	_ = cidlink.Link{}
